@@ -55,6 +55,9 @@ def run(ck, tier):
     ck.rule("C02.arm-uniform", "every arm of the equality / comparison dispatches uses the slicing parameters that its siblings use", floor=6)
     tab = [e for e in arms.load_table() if e["fn"].startswith(("arrow_data::equal", "arrow_ord::", "arrow_data::data"))]
     arms.check(ck, F, "C02.arm-uniform", tab)
+    stab = [e for e in arms.load_sink_table() if e["fn"].startswith("arrow_data::equal") or e["fn"].endswith("ArrayData::slice")]
+    ck.rule("C02.sink-uniform", "every arm of the equality dispatches / ArrayData::slice lets lhs_start / rhs_start / len / offset influence the result", floor=len(stab))
+    arms.check_sinks(ck, F, "C02.sink-uniform", stab)
 
     pairs.check(ck, F, "C02.buffer-offset-pair", ["arrow_arith", "arrow_buffer", "arrow_select", "arrow_data", "arrow_array", "arrow_ord", "arrow_string", "arrow_cast"], 15)
 
